@@ -409,11 +409,9 @@ def eval : Nat → Env → Expr → M Val
       | _ => wrong "field access on a non-struct"
     | .tfilter e t => do
       let it ← eval f env e
-      match ofType t with
-      | some d => do
-        let id ← freshId
-        pure (.fn id [] (.tup [.bool, t]) (typeFilterBody t) [("iterator", it), ("default", d)] none)
-      | none => wrong "type filter by an uninhabited type"
+      let d := (ofType t).getD .unit
+      let id ← freshId
+      pure (.fn id [] (.tup [.bool, t]) (typeFilterBody t) [("iterator", it), ("default", d)] none)
     | .post .iter e => do
       let a ← eval f env e
       match a with
